@@ -303,7 +303,11 @@ def replay(c):
     else:
         for rho in (1e-6, 1e-3, 0.1, 1.0, 10.0):
             for eps in (1e-3, 0.1, 1.0, 10.0, 100.0):
-                got = mod.cdp_delta(rho, eps)
+                try:
+                    got = mod.cdp_delta(rho, eps)
+                except (OverflowError, ValueError, ZeroDivisionError) as e:
+                    bad.append("cdp_delta(%g,%g) raised %s: %s" % (rho, eps, type(e).__name__, e))
+                    continue
                 want = ref_delta(rho, eps)
                 if not (abs(got - want) <= 1e-6 * max(want, 1e-300) + 1e-300 or (want < 1e-290 and got < 1e-290)):
                     bad.append("cdp_delta(%g,%g)=%g but the optimum of the published bound is %g" % (rho, eps, got, want))
